@@ -114,7 +114,7 @@ func (w *world) sweepPluginOutput(c *common.Ctx) {
 				}
 				oc := outCase{cmd, exit, out}
 				label := fmt.Sprintf("plugin output sweep: %s exit=%d %.60q", cmd, exit, out)
-				in := Input{Entry: "parser", OCI: "enforce", Blob: "enforce", Manager: true, Sig: "valid", Fuzz: true, Label: label, Data: fmt.Sprintf("%x", out)}
+				in := Input{Entry: "parser", OCI: "enforce", Blob: "enforce", Manager: true, Sig: "valid", Named: true, Fuzz: true, Label: label, Data: fmt.Sprintf("%x", out)}
 				if len(in.Data) > 400 {
 					in.Data = in.Data[:400]
 				}
@@ -148,7 +148,7 @@ func (w *world) sweepPluginOutput(c *common.Ctx) {
 						poke(err)
 					}
 				})
-				c.Emit(in, Obs{Panicked: p, Consistent: !p})
+				emitCase(c, in, Obs{Panicked: p, Consistent: !p})
 				c.Count("sweep=plugin-output")
 			}
 		}
